@@ -1,0 +1,127 @@
+//! Runs a schedule on the real `IngressDriver` + `ReadyPipeQueue` (crate-private): batches pushed
+//! into the session's `ingress_buffer`, polls of the driver future, drops of it at `Pending`
+//! (what `select!` does), and consumer pops from the per-pipe queue.
+use crate::message::{FrameBatch, Msg};
+use crate::sessionx::ingress_future::IngressDriver;
+use crate::socket::patterns::ready_pipe_queue::{PipeMessageSender, ReadyPipeQueue};
+use std::collections::VecDeque;
+use std::future::Future;
+use std::pin::Pin;
+use std::task::{Context, Poll};
+
+#[derive(Debug, Clone)]
+pub enum VIngressOp {
+  /// read arm: queue a decoded batch with this id and this many frames (driver must not exist)
+  Enq(u64, usize),
+  /// poll the driver future (creating it if none is alive)
+  Poll,
+  /// drop the driver future (select! completed through another arm)
+  Cancel,
+  /// application recv(): try_pop on the ready queue
+  Pop,
+}
+
+/// one row per op: [op code, result, ingress_buffer len, queue len]
+/// results: Enq -> 1 accepted / 0 ignored (driver alive); Poll -> 0 Pending, 1000+n Ready(Ok(n)), 2 Ready(Err), 3 guard closed;
+/// Cancel -> 1 a driver was dropped, 0 none; Pop -> id+1 of the popped batch or 0
+pub fn run_schedule(capacity: usize, with_sender: bool, ops: &[VIngressOp]) -> Vec<Vec<u64>> {
+  let queue: ReadyPipeQueue<FrameBatch> = ReadyPipeQueue::new(4);
+  let sender = PipeMessageSender::DirectAnonymous(queue.register_pipe(7, capacity, 64));
+  let mut buffer: VecDeque<FrameBatch> = VecDeque::new();
+  let mut rows = Vec::new();
+  let waker = futures::task::noop_waker();
+  let mut cx = Context::from_waker(&waker);
+  let id_of = |b: &FrameBatch| -> u64 {
+    let d = b.first().and_then(|m| m.data()).unwrap_or(&[]);
+    let mut a = [0u8; 8];
+    a.copy_from_slice(&d[..8]);
+    u64::from_be_bytes(a)
+  };
+  let mut i = 0usize;
+  while i < ops.len() {
+    match &ops[i] {
+      VIngressOp::Enq(id, frames) => {
+        let mut fb = FrameBatch::new();
+        for k in 0..(*frames).max(1) {
+          let mut m = Msg::from_vec(id.to_be_bytes().to_vec());
+          if k + 1 < (*frames).max(1) {
+            m.set_flags(crate::message::MsgFlags::MORE);
+          }
+          fb.push(m);
+        }
+        buffer.push_back(fb);
+        rows.push(vec![0, 1, buffer.len() as u64, sender.len() as u64]);
+        i += 1;
+      }
+      VIngressOp::Cancel => {
+        rows.push(vec![2, 0, buffer.len() as u64, sender.len() as u64]);
+        i += 1;
+      }
+      VIngressOp::Pop => {
+        let r = queue.try_pop().map(|(_, b)| id_of(&b) + 1).unwrap_or(0);
+        rows.push(vec![3, r, buffer.len() as u64, sender.len() as u64]);
+        i += 1;
+      }
+      VIngressOp::Poll => {
+        if buffer.is_empty() {
+          // select! guard `if !ingress_buffer.is_empty()`
+          rows.push(vec![1, 3, 0, sender.len() as u64]);
+          i += 1;
+          continue;
+        }
+        // the driver lives from here until it is Ready, cancelled, or an Enq needs the buffer
+        let mut pending_rows: Vec<Vec<u64>> = Vec::new();
+        {
+          let mut d = IngressDriver::new(if with_sender { Some(&sender) } else { None }, &mut buffer);
+          loop {
+            match &ops[i] {
+              VIngressOp::Poll => {
+                let r = Pin::new(&mut d).poll(&mut cx);
+                i += 1;
+                match r {
+                  Poll::Pending => pending_rows.push(vec![1, 0]),
+                  Poll::Ready(Ok(n)) => {
+                    pending_rows.push(vec![1, 1000 + n as u64]);
+                    break;
+                  }
+                  Poll::Ready(Err(_)) => {
+                    pending_rows.push(vec![1, 2]);
+                    break;
+                  }
+                }
+              }
+              VIngressOp::Pop => {
+                let r = queue.try_pop().map(|(_, b)| id_of(&b) + 1).unwrap_or(0);
+                pending_rows.push(vec![3, r]);
+                i += 1;
+              }
+              VIngressOp::Cancel => {
+                pending_rows.push(vec![2, 1]);
+                i += 1;
+                break;
+              }
+              VIngressOp::Enq(..) => break, // implicit cancel: handled by the outer loop
+            }
+            if i >= ops.len() {
+              break;
+            }
+          }
+        }
+        // buffer / queue lengths can only be read once the driver's borrow has ended; they are
+        // reported for the last row of the driver's life, earlier rows carry the marker 999
+        let n = pending_rows.len();
+        for (k, mut r) in pending_rows.into_iter().enumerate() {
+          if k + 1 == n {
+            r.push(buffer.len() as u64);
+            r.push(sender.len() as u64);
+          } else {
+            r.push(999);
+            r.push(999);
+          }
+          rows.push(r);
+        }
+      }
+    }
+  }
+  rows
+}
